@@ -648,7 +648,7 @@ def check_C15(ctx):
     for b in ([2, 4] if not ctx.thorough else [2, 3, 4, 5, 6, 8]):
         model_must_hold(ctx, "MC_Field", "MC_Field_%d.cfg" % b)
     prim_models(ctx)
-    prim_trace(ctx, "tables,mul,xf,evalpoly", parts=6 if not ctx.thorough else 10)
+    prim_trace(ctx, "tables,mul,xf,impulse,evalpoly", parts=6 if not ctx.thorough else 10)
     if ctx.thorough:
         rc, info, out = harness(["prims", "--family", "mulx", "--out", ctx.path("x"), "--seed", ctx.seed], timeout=7200)
         ctx.extra["mul_pairs_exhaustive"] = info["pairs"]
@@ -671,7 +671,7 @@ def check_C03(ctx):
         mod = "Trace_Code" if ('"ev":"enc"' in t or '"ev":"dec"' in t or '"ev":"alleq"' in t) else "Trace_Prim"
         return validate_star(ctx, mod, mod + ".cfg", ctx.replay, parts=1)
     prim_models(ctx)
-    prim_trace(ctx, "xcase,xf", parts=4 if not ctx.thorough else 8, what="cross-engine primitive case")
+    prim_trace(ctx, "xcase,xf,impulse", parts=5 if not ctx.thorough else 8, what="cross-engine primitive case")
     code_family(ctx, "c03", what="round on every engine")
     history_component(ctx, walks=120 if not ctx.thorough else 1200)
 
